@@ -133,7 +133,7 @@ def raised : Fault → Nat × Nat
   | .notifLen => (1, 2)
   | .openShort => (1, 2)
   | .openVersion => (2, 1)
-  | .openOptParam => (2, 0)
+  | .openOptParam => (2, 4)
   | .updAttrLen => (3, 1)
   | .updNlri => (3, 10)
 
@@ -369,8 +369,18 @@ def react (s : State) : Event → R
     | .awaitOpen _ => onNotify 5 1 s
     | _ => (s, [])
   | .holdExpired =>
+    -- the remote stays silent for more than the hold time: the iterations which run meanwhile
+    -- send what is pending (and notice a teardown request) before `check_ka` raises
     match s.pc with
-    | .mainLoop _ => if s.cfg.hold0 then (s, []) else onNotify 4 0 s
+    | .mainLoop c =>
+      if s.cfg.hold0 then (s, [])
+      else
+        (match s.conn with
+         | some k => if k.id = c then mainIter none s else staleIter s
+         | none => (s, []))
+        ⊳ fun (s : State) => match s.pc with
+          | .mainLoop _ => onNotify 4 0 s
+          | _ => (s, [])
     | _ => (s, [])
   | .tick =>
     match s.pc with
